@@ -77,6 +77,17 @@ class PCCAlignment(TomographyInput):
             backend=backend,
         )
 
+    def _landscape_shape(
+        self, max_shifts: tuple[float, ...], upsample: int = 1
+    ) -> tuple[int, ...]:
+        if upsample > 1:
+            return super()._landscape_shape(max_shifts, upsample)
+        # the landscape is cropped from the shifted power spectrum
+        return tuple(
+            min(s // 2 + int(m) + 1, s) - max(s // 2 - int(m), 0)
+            for m, s in zip(max_shifts, self.input_shape)
+        )
+
 
 class NCCAlignment(TomographyInput):
     """Alignment model using zero-mean cross correlation."""
@@ -241,3 +252,10 @@ class FSCAlignment(TomographyInput):
             max_shifts=max_shifts,
             backend=backend,
         )
+
+    def _landscape_shape(
+        self, max_shifts: tuple[float, ...], upsample: int = 1
+    ) -> tuple[int, ...]:
+        if upsample > 1:
+            return super()._landscape_shape(max_shifts, upsample)
+        return tuple(2 * int(np.ceil(m)) + 1 for m in max_shifts)
